@@ -174,15 +174,19 @@ def verify_path(path, e, expected_dev=None, last_mtime=None):
     with contextlib.closing(get_file_metadata(path, checksums)) as g:
         # 1. verify whether the file existed in the first place
         exists = next(g)
-        if exists != expect_exist:
-            return (False, [('__exists__', expect_exist, exists)])
-        elif not exists:
+        if not exists:
+            if expect_exist:
+                return (False, [('__exists__', expect_exist, exists)])
             return (True, [])
 
-        # 2. check for xdev condition
+        # 2. check for xdev condition (also for a file that should
+        #    not be there at all)
         st_dev = next(g)
         if expected_dev is not None and st_dev != expected_dev:
             raise ManifestCrossDevice(path)
+
+        if not expect_exist:
+            return (False, [('__exists__', expect_exist, exists)])
 
         # 3. verify whether the file is a regular file
         ifmt, ftype = next(g)
